@@ -215,13 +215,38 @@ def _oi(x):
     return None if x == "None" else int(x)
 
 
+def _eff_ba(arg, opt):
+    """The alignment that applies: the explicit argument when given and not None ('0' / '1'), otherwise ('N' = None
+    passed, 'O' = argument omitted) the module-wide option."""
+    return arg == "1" if arg in "01" else opt
+
+
+def _advance(st, opf):
+    """Reference state after opf: (bits, pos, mutable, options.bytealigned)."""
+    nbits, allowed = ref_step(st, opf)
+    opt = st[3] if len(st) > 3 else False
+    if opf.startswith("optba "):
+        opt = opf.split(" ")[1] == "1"
+    return (nbits, allowed[0][1], st[2], opt)
+
+
 def ref_step(st, opf):
     """st = (bits, pos, mutable).  Returns (newbits, [(result, newpos), ...]): every (result, pos) the property allows."""
-    bits, pos, mut = st
+    bits, pos, mut = st[:3]
+    opt = st[3] if len(st) > 3 else False                         # bitstring.options.bytealigned at this point
     n = len(bits)
     f = opf.split(" ")
     op = f[0]
     same = lambda res: (bits, [(res, pos)])
+    if op in ("readD", "peekD"):
+        op = op[:-1]
+        if _parse_tok(f[1])[0] == "open":                         # length-less Dtype object: see the generator's note
+            r = ref_step(st, op + " " + f[1])
+            return (r[0], r[1] + [("err", pos)])
+    if op in ("readlistD", "readlistM", "peeklistD", "peeklistM"):
+        op = op[:-1]
+    if op == "optba":
+        return same("[]")
     if op in ("read", "peek"):
         r = ref_read(bits, pos, f[1])
         if r[0] != "ok":
@@ -246,7 +271,7 @@ def ref_step(st, opf):
         pat = unwire(f[1])
         if not pat:
             return same("err")
-        o = _occ(bits, pat, pos, n, f[2] == "1")
+        o = _occ(bits, pat, pos, n, _eff_ba(f[2], opt))
         if not o:
             return same("ReadError")
         e = o[0] + len(pat)
@@ -267,7 +292,7 @@ def ref_step(st, opf):
         v = _vslice(n, _oi(f[2]), _oi(f[3]))
         if not pat or v is None:
             return same("err")
-        o = _occ(bits, pat, v[0], v[1], f[4] == "1")
+        o = _occ(bits, pat, v[0], v[1], _eff_ba(f[4], opt))
         if not o:
             return same("()")
         p = o[0] if op == "find" else o[-1]
@@ -315,9 +340,9 @@ def ref_step(st, opf):
         return (nb, [("None", pos if len(nb) == n else 0)])
     if op in ("replace", "replaceself"):
         if op == "replace":
-            old, new, a, b, c, al = unwire(f[1]), unwire(f[2]), _oi(f[3]), _oi(f[4]), _oi(f[5]), f[6] == "1"
+            old, new, a, b, c, al = unwire(f[1]), unwire(f[2]), _oi(f[3]), _oi(f[4]), _oi(f[5]), _eff_ba(f[6], opt)
         else:
-            old, new, a, b, c, al = unwire(f[1]), bits, _oi(f[2]), _oi(f[3]), _oi(f[4]), f[5] == "1"
+            old, new, a, b, c, al = unwire(f[1]), bits, _oi(f[2]), _oi(f[3]), _oi(f[4]), _eff_ba(f[5], opt)
         v = _vslice(n, a, b)
         if c == 0:
             # nothing to do; whether bad arguments are still rejected is not this property's business
@@ -510,6 +535,19 @@ def _tok_arg(t):
         return t
 
 
+def _dtype_obj(t):
+    """The token as a Dtype object (an integer count is Dtype('bits', n))."""
+    try:
+        return bitstring.Dtype("bits", int(t))
+    except ValueError:
+        return bitstring.Dtype(t)
+
+
+def _ba_kw(arg):
+    """'O' = keyword omitted, 'N' = None passed, '0' / '1' = False / True passed."""
+    return {} if arg == "O" else {"bytealigned": {"N": None, "0": False, "1": True}[arg]}
+
+
 def _toklist(ts, route_string):
     items = [] if ts == "-" else ts.split(",")
     if route_string:
@@ -550,6 +588,18 @@ def _do(s, opf, extra, operands):
             return Bits(bin=b) if b else Bits()
         operands.append((o, o.pos))
         return o
+    if op == "optba":
+        bitstring.options.bytealigned = (f[1] == "1")
+        return "[]"
+    if op in ("readD", "peekD"):
+        return _fmt(getattr(s, op[:-1])(_dtype_obj(f[1])))
+    if op in ("readlistD", "readlistM", "peeklistD", "peeklistM"):
+        items = [] if f[1] == "-" else f[1].split(",")
+        if op.endswith("D"):
+            fmt = [_dtype_obj(t) for t in items]                  # a list made up only of Dtype objects
+        else:
+            fmt = [_dtype_obj(t) if (i + len(opf)) % 2 == 0 else _tok_arg(t) for i, t in enumerate(items)]
+        return _fmt(getattr(s, op[:-1])(fmt))
     if op == "read":
         return _fmt(s.read(_tok_arg(f[1])))
     if op == "peek":
@@ -580,7 +630,7 @@ def _do(s, opf, extra, operands):
         extra.setdefault("other", []).append((opf, b, got, getattr(t, "pos", 0)))
         return "[]"
     if op == "readto":
-        return _fmt(s.readto(B(f[1]), bytealigned=(f[2] == "1")))
+        return _fmt(s.readto(B(f[1]), **_ba_kw(f[2])))
     if op == "readtoint":
         return _fmt(s.readto(3))
     if op == "bytealign":
@@ -599,8 +649,7 @@ def _do(s, opf, extra, operands):
             kw["start"] = int(f[2])
         if f[3] != "None":
             kw["end"] = int(f[3])
-        if f[4] == "1":
-            kw["bytealigned"] = True
+        kw.update(_ba_kw(f[4]))
         return _fmt(getattr(s, op)(B(f[1]), **kw))
     if op == "append":
         return _fmt(s.append(B(f[1])))
@@ -635,9 +684,9 @@ def _do(s, opf, extra, operands):
     if op == "delidx":
         del s[int(f[1])]; return "None"
     if op == "replace":
-        return _fmt(s.replace(B(f[1]), B(f[2]), _oi(f[3]), _oi(f[4]), _oi(f[5]), f[6] == "1"))
+        return _fmt(s.replace(B(f[1]), B(f[2]), _oi(f[3]), _oi(f[4]), _oi(f[5]), **_ba_kw(f[6])))
     if op == "replaceself":
-        return _fmt(s.replace(B(f[1]), s, _oi(f[2]), _oi(f[3]), _oi(f[4]), f[5] == "1"))
+        return _fmt(s.replace(B(f[1]), s, _oi(f[2]), _oi(f[3]), _oi(f[4]), **_ba_kw(f[5])))
     if op == "clear":
         return _fmt(s.clear())
     if op == "setprop":
@@ -821,23 +870,28 @@ def execute(line):
         s = cls(bin=bits) if bits else cls()
         s.pos = pos
     obs, before = [], bits
-    for opf in ops:
-        operands = []
-        try:
-            res = _do(s, opf, extra, operands)
-        except RecursionError:
-            res = "Internal:RecursionError"
-        except Exception as e:                                   # noqa: BLE001 — the exception class is the observable
-            res = _err(e)
-        for o, p in operands:
-            if o is not s and o.pos != p:
-                extra.setdefault("operand", []).append(f"{opf}: the operand's own pos moved {p} -> {o.pos}")
-        now = s.bin
-        obs.append(f"{res} {s.pos} {'=' if now == before else wire(now)}")
-        before = now
-        if not 0 <= s.pos <= len(s):
-            obs.append("!")
-            break
+    saved_ba = bitstring.options.bytealigned
+    bitstring.options.bytealigned = False
+    try:
+        for opf in ops:
+            operands = []
+            try:
+                res = _do(s, opf, extra, operands)
+            except RecursionError:
+                res = "Internal:RecursionError"
+            except Exception as e:                               # noqa: BLE001 — the exception class is the observable
+                res = _err(e)
+            for o, p in operands:
+                if o is not s and o.pos != p:
+                    extra.setdefault("operand", []).append(f"{opf}: the operand's own pos moved {p} -> {o.pos}")
+            now = s.bin
+            obs.append(f"{res} {s.pos} {'=' if now == before else wire(now)}")
+            before = now
+            if not 0 <= s.pos <= len(s):
+                obs.append("!")
+                break
+    finally:
+        bitstring.options.bytealigned = saved_ba
     return "ok " + "|".join(obs), extra
 
 
@@ -856,11 +910,14 @@ def first_failure(line, out):
     if not out.startswith("ok "):
         return (0, "no observation: " + out)
     obs = out[3:].split("|")
+    opt = False
     for i, opf in enumerate(ops):
         if i >= len(obs) or obs[i] == "!":
             return (i, f"observation ends before step {i} ({opf})")
         res, ipos, ibin = _parse_obs(obs[i])
-        nbits, allowed = ref_step((bits, pos, mut), opf)
+        nbits, allowed = ref_step((bits, pos, mut, opt), opf)
+        if opf.startswith("optba "):
+            opt = opf.split(" ")[1] == "1"
         ibits = bits if ibin == "=" else unwire(ibin)
         if not 0 <= ipos <= len(ibits):
             return (i, f"step {i} ({opf}) from (bits={wire(bits)}, pos={pos}): pos={ipos} is outside 0..{len(ibits)}")
@@ -868,7 +925,8 @@ def first_failure(line, out):
             return (i, f"step {i} ({opf}) from (bits={wire(bits)}, pos={pos}): contents {wire(ibits)}, expected {wire(nbits)}")
         if (res, ipos) not in allowed:
             exp = " or ".join(f"{r} with pos={p}" for r, p in allowed)
-            return (i, f"step {i} ({opf}) from (bits={wire(bits)}, pos={pos}): got {res} with pos={ipos}, expected {exp}")
+            where = f"(bits={wire(bits)}, pos={pos}" + (", options.bytealigned=True" if opt and not opf.startswith("optba") else "") + ")"
+            return (i, f"step {i} ({opf}) from {where}: got {res} with pos={ipos}, expected {exp}")
         bits, pos = nbits, ipos
     if len(obs) > len(ops):
         return (len(ops), "stray observation " + obs[len(ops)])
@@ -887,8 +945,17 @@ def model_line(line):
     if f[1] != "hist":
         return line
     out = f[:6]
+    opt = False
     for opf in f[6:]:
         g = opf.split(" ")
+        if g[0] == "optba":                                       # the model has no option: it gets the alignment in force
+            opt = g[1] == "1"
+            opf = "peeklistS -"
+        elif g[0] in ("find", "rfind", "readto", "replace", "replaceself"):
+            g[-1] = "1" if _eff_ba(g[-1], opt) else "0"
+            opf = " ".join(g)
+        elif g[0] in ("readD", "peekD", "readlistD", "readlistM", "peeklistD", "peeklistM"):
+            opf = " ".join([g[0][:-1]] + g[1:])                   # Dtype objects are just another way to write the tokens
         if g[0] in ("readlistK", "peeklistK"):
             toks = _resolve_kw(g[1], g[2])
             opf = ("readlistS " if g[0] == "readlistK" else "peeklistS ") + (",".join(toks) if toks else "-")
@@ -1069,8 +1136,7 @@ def _kw_history(rng):
         else:
             opf = _rand_kw_op(rng, len(st[0]) - st[1], rng.choice(tpls))
         ops.append(opf)
-        nbits, allowed = ref_step(st, opf)
-        st = (nbits, allowed[0][1], st[2])
+        st = _advance(st, opf)
     return _case(cls, bits, pos, rng.choice(["ctor", "attr"]), ops)
 
 
@@ -1123,19 +1189,21 @@ def _prop_assign(rng, n):
 
 
 def _rand_op(rng, st):
-    bits, pos, mut = st
+    bits, pos, mut = st[:3]
     n, rem = len(bits), len(bits) - pos
     fam = rng.random()
     if fam < 0.30:
         r = rng.random()
-        if r < 0.40:
-            return "read " + _rand_tok(rng, rem)
         if r < 0.55:
-            return "peek " + _rand_tok(rng, rem)
+            # read(Dtype object) only with a length or a self-delimiting code: read(Dtype('hex')) without a length is an
+            # internal TypeError in the library (readlist accepts it) - outside what this property fixes, not generated
+            t = _rand_tok(rng, rem)
+            name = "read" if r < 0.40 else "peek"
+            return (name + "D " if rng.random() < 0.25 and _parse_tok(t)[0] != "open" else name + " ") + t
         if r < 0.78:
-            return rng.choice(["readlist", "readlistS"]) + " " + _rand_toklist(rng, rem)
+            return rng.choice(["readlist", "readlistS", "readlistD", "readlistM"]) + " " + _rand_toklist(rng, rem)
         if r < 0.90:
-            return rng.choice(["peeklist", "peeklistS"]) + " " + _rand_toklist(rng, rem)
+            return rng.choice(["peeklist", "peeklistS", "peeklistD", "peeklistM"]) + " " + _rand_toklist(rng, rem)
         return _rand_kw_op(rng, rem)
     if fam < 0.42:
         r = rng.random()
@@ -1144,12 +1212,14 @@ def _rand_op(rng, st):
         if r < 0.7:
             return rng.choice(["pos", "pos", "bitpos"]) + " " + str(rng.choice([0, n, n + 1, -1, n - 1, rng.randint(0, n), rng.randint(0, n),
                                                                                8 * (n // 8), max(8 * (n // 8) + rng.randint(-1, 1), 0)]))
-        if r < 0.85:
+        if r < 0.78:
             return "bytepos"
+        if r < 0.86:
+            return "optba " + rng.choice("01")
         return "setbytepos " + str(rng.choice([0, n // 8, n // 8 + 1, -1, rng.randint(0, n // 8 + 1)]))
     if fam < 0.52:
         r = rng.random()
-        al = "1" if rng.random() < 0.25 else "0"
+        al = rng.choice("0001ONNOO1")
         if r < 0.4:
             return f"readto {wire(_pattern(rng, bits, pos))} {al}" if rng.random() < 0.97 else "readtoint"
         return f"{rng.choice(['find', 'rfind'])} {wire(_pattern(rng, bits))} {_opt_idx(rng, n, 0.6)} {_opt_idx(rng, n, 0.6)} {al}"
@@ -1202,7 +1272,7 @@ def _rand_op(rng, st):
         x = rng.random()
         new = old if x < 0.15 else (rand_bits(rng, len(old)) if x < 0.45 else b)
         c = rng.choice(["None", "None", "None", "1", "2", "0", "-1"])
-        al = "1" if rng.random() < 0.2 else "0"
+        al = rng.choice("00001ONO")
         if rng.random() < 0.08 and n <= 40:
             return f"replaceself {wire(old)} {_opt_idx(rng, n, 0.7)} {_opt_idx(rng, n, 0.7)} {c} {al}"
         return f"replace {wire(old)} {wire(new)} {_opt_idx(rng, n, 0.7)} {_opt_idx(rng, n, 0.7)} {c} {al}"
@@ -1238,8 +1308,7 @@ def _history(rng, maxlen=25):
     for _ in range(min(k, maxlen)):
         opf = _rand_op(rng, st)
         ops.append(opf)
-        nbits, allowed = ref_step(st, opf)
-        st = (nbits, allowed[0][1], st[2])
+        st = _advance(st, opf)
     return _case(cls, bits, pos, rng.choice(["ctor", "ctor", "attr", "auto", "neg"]), ops)
 
 
@@ -1304,6 +1373,49 @@ def gen(rng, tier):
             yield _case(cls, b, 0, "ctor", ops)
     for _ in range(20000 if big else 2500):
         yield _kw_history(rng)
+    # 4c. the module-wide bytealigned option x the bytealigned argument (omitted / None / False / True), on data whose
+    #     first (last) occurrence is not byte aligned while a later (earlier) one is
+    for pat in ("1011", "11", "10000001", "110100111"):
+        for (u, a) in ((3, 16), (1, 8), (5, 24), (9, 32)):
+            for rev in (False, True):
+                n = a + len(pat) + 7
+                lay = ["0"] * n
+                first, second = (a, a + 8 + u % 8 if False else u) if rev else (u, a)
+                for p0 in (u, a):
+                    lay[p0:p0 + len(pat)] = list(pat)
+                b = "".join(lay)
+                for opt in "01":
+                    for al in "ON01":
+                        for cls in STREAMS:
+                            yield _case(cls, b, 0, "ctor", [f"optba {opt}", f"readto {pat} {al}", "pos 0", f"find {pat} None None {al}",
+                                                            "pos 0", f"rfind {pat} None None {al}", f"pos {min(u + 1, n)}", f"readto {pat} {al}",
+                                                            f"optba {'1' if opt == '0' else '0'}", "pos 0", f"readto {pat} {al}", f"rfind {pat} 0 {a} {al}"])
+                        yield _case("BitStream", b, 0, "attr", [f"optba {opt}", f"replace {pat} 0 None None None {al}", "q len", f"readto {pat} {al}"])
+    # 4d. formats given as Dtype objects (alone, and mixed with strings and ints): a later item runs past the end
+    for n in (range(4, 41) if big else (4, 5, 8, 9, 12, 16, 17, 24, 31, 33)):
+        for _ in range(6 if big else 8):
+            b = rand_bits(rng, n)
+            pos = rng.choice([0, 0, 1, n // 2, max(n - 3, 0)])
+            rem = n - pos
+            k = rng.choice([2, 2, 3, 4])
+            cuts = sorted(rng.randint(0, rem) for _ in range(k - 1))
+            sizes = [y - x for x, y in zip([0] + cuts, cuts + [rem])]
+            sizes[-1] += rng.choice([1, 1, 2, 9])                 # the last item needs more than is left
+            toks = []
+            for z in sizes:
+                kind = rng.choice(["uint", "int", "bin", "bits", "pad", "count", "hex", "ue"])
+                if kind == "count":
+                    toks.append(str(z))
+                elif kind == "hex":
+                    toks.append(f"hex:{z - z % 4 + (4 if z % 4 else 0)}")
+                elif kind == "ue" and len(toks) < len(sizes) - 1:
+                    toks.append("ue")
+                else:
+                    toks.append(f"{kind if kind not in ('count', 'hex', 'ue') else 'bin'}:{max(z, 1) if kind in ('uint', 'int') else z}")
+            tl = ",".join(toks)
+            cls = rng.choice(STREAMS)
+            for route in ("readlistD", "peeklistD", "readlistM", "peeklistM", "readlist", "readlistS"):
+                yield _case(cls, b, pos, "ctor", [f"{route} {tl}", "q len", f"{route} {','.join(toks[:-1]) or '-'}", f"readD {toks[0]}"])
     # 5. codes cut short by one to three bits, read through every route
     for _ in range(6000 if big else 500):
         c = rng.choice(VAR)
